@@ -20,7 +20,7 @@ RULE = (
 )
 ASSUMPTIONS = ["snapshots compare object identities, not reprs", "graphviz 'dot' is available for render cases (else they are skipped and counted)"]
 
-OPS = ["run_ok", "run_fail", "run_stalefail", "run_cycle", "dry", "render", "render_dry", "concurrent", "concurrent_reg", "copies", "run_opts", "foreign_entry", "run_dry_plan", "stub_source"]
+OPS = ["run_ok", "run_fail", "run_stalefail", "run_cycle", "dry", "render", "render_dry", "concurrent", "concurrent_reg", "copies", "run_opts", "foreign_entry", "run_dry_plan", "stub_source", "scope_independence"]
 
 
 def gen_cases(tier, seed):
@@ -157,6 +157,46 @@ def run_case(desc):
                 bad = compare(f"run(dry_run={dry}) with a registry that also holds a node of another plan")
                 if bad:
                     break
+        elif op == "scope_independence":
+            # a Plan and its copy do not share anything that one thread can hold against the other: while thread A is inside
+            # `with plan.scope(...)`, thread B enters a scope on plan.copy(), builds calls there and runs the original plan
+            holding = threading.Event()
+            release = threading.Event()
+            done = {}
+
+            def holder_thread():
+                with plan.scope("held-by-A"):
+                    holding.set()
+                    release.wait(10)
+
+            def other_thread():
+                try:
+                    p2 = plan.copy()
+                    with p2.scope("B"):
+                        p2.call(len, [1])
+                    done["copy_scope"] = True
+                    uberjob.run(plan, **kw)
+                    done["run"] = True
+                except BaseException as e:
+                    done["exc"] = repr(e)[:120]
+
+            ta = threading.Thread(target=holder_thread)
+            tb = threading.Thread(target=other_thread)
+            ta.start()
+            holding.wait(5)
+            tb.start()
+            tb.join(4)
+            blocked = tb.is_alive()
+            release.set()
+            ta.join(10)
+            tb.join(20)
+            if blocked:
+                bad = (f"while one thread was inside `with plan.scope(...)` on the original plan, another thread could not "
+                       f"{'enter a scope on plan.copy()' if not done.get('copy_scope') else 'run the plan'} until that scope was left (blocked for 4 s): copies are not independent")
+            elif "exc" in done and "copy_scope" not in done:
+                bad = f"using plan.copy() from a second thread failed: {done['exc']}"
+            if bad is None:
+                before_p = snapshot.plan_snapshot(plan)
         elif op == "stub_source":
             # a second registry that stubs the sources of the first: the placeholder nodes created by registry.source are registered there
             # with Registry.add (is_source False). Runs with the second registry must leave ITS entries as they are.
